@@ -538,3 +538,9 @@ build_connectivity_matrix = FunctionContract(
             ("target_nodes = res_graph.nodes[target_residue]['graph'].nodes()", "target_nodes = res_graph.nodes[origin_residue]['graph'].nodes()")],
 )
 CONTRACTS.append(build_connectivity_matrix)
+
+# the grouping of atoms into residues this property rests on (make_residue_graph = collect_residues, then partition_graph, then
+# the common attributes of each residue): re-verified here from the current source
+from contracts import graph_utils as _gu
+CONTRACTS.append(_gu.collect_residues('C15'))
+CONTRACTS.append(_gu.partition_graph('C15'))
